@@ -177,6 +177,8 @@ class UpdateContext():
         the update argument is missing in *value*'s context.
         """
         import jinja2
+        # lena.flow imports lena.context, therefore it is imported here.
+        import lena.flow
         # data, context = value
         data, context = lena.flow.get_data_context(value)
         if isinstance(self._update, (str, jinja2.Template)):
